@@ -52,7 +52,8 @@ def park1(ctx: Ctx, chk) -> None:
         bad = None
         for p in paths:
             ev = [("STORE" if id(x.ast) in store_stmts else "WRITE") for x in p if x.kind == "stmt" and (id(x.ast) in store_stmts or id(x.ast) in write_stmts)]
-            if len(ev) != 1:
+            # storing an entry and then refreshing its fields is one park event
+            if not ev or len(set(ev)) != 1 or (ev[0] == "WRITE" and len(ev) != 1):
                 bad = (p, ev)
                 break
         key = f"{f.fq}::one-of-park-or-write"
@@ -67,7 +68,12 @@ def park1(ctx: Ctx, chk) -> None:
             k = fkey(f, st)
             probs = []
             if not isinstance(st, ast.Assign):
-                probs.append(f"`{norm(st)[:60]}` is not a plain assignment: an earlier parked value would win")
+                # setdefault(key, In) followed by a refresh of the existing entry's payload from In still lets the last command win
+                par = ctx.prog.parents.get(st)
+                bound = par.targets[0].id if isinstance(par, ast.Assign) and len(par.targets) == 1 and isinstance(par.targets[0], ast.Name) else par.target.id if isinstance(par, ast.NamedExpr) else None
+                refreshed = isinstance(st, ast.Call) and st.func.attr == "setdefault" and bound is not None and any(u[1] == bound for u in refresh)
+                if not refreshed:
+                    probs.append(f"`{norm(st)[:60]}` is not a plain assignment: an earlier parked value would win")
             kc = cn.canon(key_e) if key_e is not None else "?"
             if kc != "(In.node_id, In.child_id, In.message_type)":
                 probs.append(f"the buffer key is {kc}, not (node, child, type) of the sent message")
@@ -239,10 +245,39 @@ def flush_node(ctx: Ctx, chk) -> None:
                         other = sides[1 - sides.index(f"{msg}.node_id")]
                         if other.endswith(".node_id") or other.endswith("[0]"):
                             filt = cmp_
+        if filt is None:
+            filt = _helper_node_filter(ctx, f, [src, fl.loop.iter], message_param(f))
         if filt is not None:
             chk.ok(rule, key, f"`{norm(filt)}` selects the woken node's entries", ctx.loc(f, filt))
         else:
             chk.refute(rule, key, "the flush sends buffered commands without comparing the entry's node with the node that woke up: commands of nodes that are still asleep are written", ctx.loc(f, fl.loop))
+
+
+def _helper_node_filter(ctx: Ctx, f, exprs, msg: str):
+    """The node filter may live in a helper that hands out the entries: `<entry>.node_id == <param>` with the
+    parameter bound to In.node_id at the call."""
+    from .common import callee_names
+
+    for e in exprs:
+        if e is None:
+            continue
+        inner = {id(x) for x in ast.walk(e)}
+        for call, nm in sb.helper_calls(ctx, f, "reads", "set_messages") + sb.helper_calls(ctx, f, "removes", "set_messages"):
+            if id(call) not in inner:
+                continue
+            h = ctx.func(nm)
+            params = [a.arg for a in h.node.args.posonlyargs + h.node.args.args]
+            if params and params[0] in ("self", "cls"):
+                params = params[1:]
+            amap = dict(zip(params, call.args))
+            amap.update({kw.arg: kw.value for kw in call.keywords if kw.arg})
+            for cmp_ in [x for x in ctx.own_nodes(h) if isinstance(x, ast.Compare) and len(x.ops) == 1 and isinstance(x.ops[0], ast.Eq)]:
+                sides = [cmp_.left, cmp_.comparators[0]]
+                for i in (0, 1):
+                    a, b = sides[i], sides[1 - i]
+                    if isinstance(a, ast.Name) and a.id in amap and norm(amap[a.id]) == f"{msg}.node_id" and (norm(b).endswith(".node_id") or norm(b).endswith("[0]")):
+                        return cmp_
+    return None
 
 
 def flush_once(ctx: Ctx, chk) -> None:
